@@ -177,7 +177,9 @@ class Answerer(object):
             return "27601"
         if "name" in base:
             return r.choice(["Pat", "Sam Q", "O'Neil", "Lee-Ann"])
-        return r.choice(["x", "Main St 1", "", "abc def"])
+        if "apartment" in base:
+            return r.choice(["", "#5", "2B", "Apt; 2"])
+        return r.choice(["x", "Main St 1", "", "abc def", "Teacher #1", "a ; b"])
 
     def boolean(self, form, fbase, base):
         p, r = self.p, self.r
@@ -249,7 +251,10 @@ class Answerer(object):
             return "%.2f" % r.choice([0.0, 0.0, 100.0, 250.0, 300.0])
         if base in ("estimated_tax_payments", "other_federal_withholding"):
             return "%.2f" % self.small(8000)
-        if base in ("apply_to_estimated_tax", "tax_penalty"):
+        if base == "apply_to_estimated_tax":
+            # sometimes more than any overpayment can be
+            return "%.2f" % r.choice([0.0, 0.0, self.small(500), 2500.0, 50000.0, 1000000.0])
+        if base == "tax_penalty":
             return "%.2f" % self.small(500)
         if "hsa" in fbase or fbase == "8889":
             return "%.2f" % self.small(4000)
@@ -277,6 +282,6 @@ def solve_scenario(year, request, profile, rng, overrides=None, conf=None, choos
     if meta:
         m.update(meta)
     tr, res, solver = runs.run_traced(forms, conf, request, field_names, user=ans, chooser=chooser, mode="real",
-                                      snap=snap, tid=tid, meta=m, preseed=preseed)
+                                      snap=snap, tid=tid, meta=m, preseed=preseed, max_events=30000)
     m["given"] = dict(ans.given)
     return tr, res, solver, ans
